@@ -817,7 +817,8 @@ class C05(Property):
                 return False
         if c['op'] == 'check_balance' and c.get('dec'):
             # decimal amounts: exact Fractions in the model, floats in the real code
-            if self._roundoff_reject(io):
+            pio = io.split(':')
+            if self._roundoff_reject_(io) and abs(float(Fraction(pio[4]))) <= self._roundoff_window(c, int(pio[2]), int(pio[3])):
                 return True      # open finding check_balance:float-roundoff-decimal-compositions; decided by the oracle
             a, b = io.split(':'), mo.split(':')
             if len(a) == len(b) == 5 and a[:4] == b[:4]:
@@ -831,7 +832,17 @@ class C05(Property):
         return io == mo
 
     @staticmethod
-    def _roundoff_reject(line):
+    def _roundoff_window(c, idx, key):
+        """bound on the float round-off of `net += amount*coeff` for reaction idx and composition key: 4 n eps sum|terms|"""
+        try:
+            spec = c['rxns'][idx]
+            terms = [abs(float(kg.frac(v))) * abs(kg.net_of(spec, k)) for k, cj in c['subs'] if cj for e, v in cj if e == key]
+            return 4 * max(len(terms), 1) * 2.3e-16 * (sum(terms) or 1.0)
+        except Exception:
+            return 1e-12
+
+    @staticmethod
+    def _roundoff_reject_(line):
         """the real code rejected with a net amount of round-off size (genuine imbalances of the generated cases are >= 1/100)"""
         p = str(line).split(':')
         try:
@@ -1024,6 +1035,11 @@ class C05(Property):
                     return where + ': composition_violation differs from the current compositions'
         return None
 
+    def _window_ok(self, c, rxns, mm):
+        strs = [r.string(with_param=False, with_name=False) for r in rxns]
+        idx = strs.index(mm.group(3)) if mm.group(3) in strs else -1
+        return idx >= 0 and abs(float(mm.group(2))) <= self._roundoff_window(c, idx, int(mm.group(1)))
+
     def _oracle_accept(self, c):
         from chempy import ReactionSystem
         rxns = [kg.mk_reaction(s, 'int') for s in c['rxns']]
@@ -1057,7 +1073,7 @@ class C05(Property):
         balanced = all(not v for v in viol)
         if c.get('dec') and not res:
             mm = re.match(r'Composition violation \((-?\d+): (.*?)\) in (.*)$', err, re.S)
-            if mm and 0 < abs(float(mm.group(2))) < 1e-9:
+            if mm and 0 < abs(float(mm.group(2))) < 1e-9 and self._window_ok(c, rxns, mm):
                 # which reaction?  recompute exactly and in floats (same accumulation order as the code)
                 key = int(mm.group(1))
                 strs = [r.string(with_param=False, with_name=False) for r in rxns]
@@ -1186,6 +1202,15 @@ class C05(Property):
         bad_args = pref is not None and (len(pref) == 0 or len(pref) >= len(names_) or any(k not in names_ for k in pref))
         if bad_args and 'solver_error' not in out:
             return 'linear_dependencies(%s) was not refused (empty / too long / unknown key)' % pref
+        try:
+            import numpy as np
+            fv = np.asarray(odesys.f_cb(0.0, [float(v) for v in y], []), dtype=float)
+            for row, key in zip(B, out['ck']):
+                terms = [float(b) * fv[i] for i, b in enumerate(row)]
+                if abs(sum(terms)) > 1e-12 * (sum(abs(t) for t in terms) + 1e-300):
+                    return 'B @ f_cb(y): composition row of key %s gives %r on the compiled right-hand side' % (key, sum(terms))
+        except Exception as e:
+            return 'odesys.f_cb raised %s: %s' % (exc_name(e), str(e)[:100])
         if 'solver_error' in out:
             if pref is None:
                 return 'linear_dependencies(None) raised ValueError'
